@@ -906,6 +906,15 @@ def correspondence(run):
     import contextlib
     with contextlib.redirect_stdout(io.StringIO()):      # the hook prints "Saving snapshot to ..."
         _correspondence(run)
+    # ./check skips its "something broke" step when a known finding was seen in the run; a broken translation /
+    # proof / shard must still end in a VIOLATION line (the oracle above ran on every crash index and found nothing)
+    broken = [o for o in run.obligations if not o[1]]
+    if broken and not run.violations and run.known:
+        run.violation("broken:" + broken[0][0],
+                      {"broken_obligations": [{"name": o[0], "detail": o[2][-3000:]} for o in broken],
+                       "note": "a theorem, tie or correspondence no longer checks; the property's oracle, run on every "
+                               "crash index of the sampled histories, found no concrete failing input"},
+                      found_input=False)
 
 
 def _correspondence(run):
@@ -932,6 +941,10 @@ def _correspondence(run):
     try:
         world = World(m, base)
         cs, ts, st, samples = crash_cases(run, world, comp_of)
+        if not prog:
+            # no translation -> the model has no program to run; only the oracle above speaks
+            run.oblige("correspondence:crash+trace skipped: gen/SaveIR.v is a stub (translation failed)", False)
+            cs.terms, cs.metas, ts.terms, ts.metas = [], [], [], []
         failing, shard_fail, nsh = cs.run()
         run.oblige(f"correspondence:crash ({nsh} shards)", not shard_fail, str(shard_fail)[:1500])
         run.count(st["runs"], st["Resumed"] + st["Broken"],
